@@ -30,13 +30,37 @@ type vfNNode struct {
 
 func (n *vfNNode) member() bool { return len(n.subs) > 0 || len(n.relays) > 0 }
 
-func vfNetHistory(t *testing.T, rng *rand.Rand, mode int) (lit string, rec map[string]any, nontrivial bool) {
+func vfNetHistory(t *testing.T, rng *rand.Rand, mode int, forceBig bool) (lit string, rec map[string]any, nontrivial bool) {
 	synctest.Test(t, func(t *testing.T) {
 		ctx, cancel := context.WithCancel(context.Background())
 		defer cancel()
+		// mode 4: a gossipsub node that neither subscribes nor relays publishes into an overlay of floodsub / randomsub nodes only
+		edge := mode == 4
+		if edge {
+			mode = 3
+		}
+		// mode 5: a gossipsub star with small degree parameters in which one or two leaves lose their only link and dial it again
+		reconn := mode == 5
+		if reconn {
+			mode, forceBig = 2, true
+		}
 		nn := 2 + rng.Intn(5)
+		if edge {
+			nn = 3 + rng.Intn(3)
+		}
 		if rng.Intn(3) == 0 {
 			nn = 6 // the larger degrees need the larger networks
+		}
+		// gossipsub with small degree parameters (D=2, Dlo=1, Dhi=3, Dlazy=2): meshes are cut back and some subscribers are
+		// served by IHAVE / IWANT only; the property's degree bound D+Dlazy = 4 then limits the network to five nodes
+		smallD := (mode >= 2 && rng.Intn(3) != 0) || forceBig
+		if smallD && nn > 5 {
+			nn = 5
+		}
+		// the boundary of the degree bound: a hub with D+Dlazy subscribing neighbours, all of which depend on it alone
+		bigStar := (smallD && mode == 2 && rng.Intn(3) != 0) || forceBig
+		if bigStar {
+			nn = 5
 		}
 		hosts := vfHosts(t, nn)
 		nodes := make([]*vfNNode, nn)
@@ -45,6 +69,12 @@ func vfNetHistory(t *testing.T, rng *rand.Rand, mode int) (lit string, rec map[s
 			k := mode
 			if mode == 3 {
 				k = rng.Intn(3)
+			}
+			if edge {
+				k = rng.Intn(2)
+				if i == 0 {
+					k = 2
+				}
 			}
 			var ps *PubSub
 			var err error
@@ -57,6 +87,11 @@ func vfNetHistory(t *testing.T, rng *rand.Rand, mode int) (lit string, rec map[s
 				ps, err = NewRandomSub(ctx, hosts[i], nn, opts...)
 				kind = "randomsub"
 			default:
+				if smallD {
+					gp := DefaultGossipSubParams()
+					gp.D, gp.Dlo, gp.Dhi, gp.Dscore, gp.Dout, gp.Dlazy = 2, 1, 3, 1, 0, 2
+					opts = append(opts, WithGossipSubParams(gp))
+				}
 				ps, err = NewGossipSub(ctx, hosts[i], opts...)
 				kind = "gossipsub"
 			}
@@ -87,7 +122,17 @@ func vfNetHistory(t *testing.T, rng *rand.Rand, mode int) (lit string, rec map[s
 		}
 		// initial roles and a random connected topology
 		for i := range nodes {
-			switch rng.Intn(5) {
+			role := rng.Intn(5)
+			if bigStar {
+				role = 3
+			}
+			if edge {
+				role = 1 + rng.Intn(3)
+				if i == 0 {
+					role = 0
+				}
+			}
+			switch role {
 			case 0:
 			case 1:
 				relay(i)
@@ -98,11 +143,19 @@ func vfNetHistory(t *testing.T, rng *rand.Rand, mode int) (lit string, rec map[s
 				subscribe(i)
 			}
 		}
+		starHub := -1
 		// topology: star (one hub of degree nn-1) / chain / complete graph / random tree plus a few extra links
 		shape := rng.Intn(5)
+		if bigStar || edge {
+			shape = 0
+		}
 		switch shape {
 		case 0, 1:
 			hub := rng.Intn(nn)
+			if edge {
+				hub = 0
+			}
+			starHub = hub
 			for i := 0; i < nn; i++ {
 				connect(i, hub)
 			}
@@ -127,7 +180,26 @@ func vfNetHistory(t *testing.T, rng *rand.Rand, mode int) (lit string, rec map[s
 		time.Sleep(3 * time.Second)
 		// churn
 		var churn []string
-		for k := rng.Intn(12); k > 0; k-- {
+		nchurn := rng.Intn(12)
+		if bigStar || edge {
+			nchurn = 0 // keep the boundary structure
+		}
+		if reconn && starHub >= 0 {
+			time.Sleep(5 * time.Second) // meshes have formed
+			for k := 1 + rng.Intn(2); k > 0; k-- {
+				x := rng.Intn(nn)
+				if x == starHub {
+					continue
+				}
+				hosts[x].Network().ClosePeer(hosts[starHub].ID())
+				churn = append(churn, fmt.Sprintf("disconnect %d %d", x, starHub))
+				time.Sleep(time.Duration(500+rng.Intn(3000)) * time.Millisecond)
+				connect(x, starHub)
+				churn = append(churn, fmt.Sprintf("connect %d %d", x, starHub))
+				time.Sleep(time.Duration(rng.Intn(2000)) * time.Millisecond)
+			}
+		}
+		for k := nchurn; k > 0; k-- {
 			i := rng.Intn(nn)
 			switch rng.Intn(7) {
 			case 0:
@@ -251,6 +323,9 @@ func vfNetHistory(t *testing.T, rng *rand.Rand, mode int) (lit string, rec map[s
 				}
 			}
 			src := cands[rng.Intn(len(cands))]
+			if edge {
+				src = 0
+			}
 			extra := ""
 			if !nodes[src].member() {
 				for _, m := range members {
@@ -303,7 +378,7 @@ func vfNetHistory(t *testing.T, rng *rand.Rand, mode int) (lit string, rec map[s
 			kinds = append(kinds, n.kind)
 		}
 		lit = fmt.Sprintf("{| nc_edges := [%s]; nc_subscribers := [%s]; nc_pubs := [%s] |}", strings.Join(el, "; "), strings.Join(subl, "; "), strings.Join(pubs, "; "))
-		rec = map[string]any{"routers": kinds, "overlay_edges": el, "subscribers": subl, "churn": churn, "publications": recPubs}
+		rec = map[string]any{"small_degree_parameters": smallD, "routers": kinds, "overlay_edges": el, "subscribers": subl, "churn": churn, "publications": recPubs}
 		nontrivial = len(members) > 2 && len(churn) > 0
 		for _, n := range nodes {
 			for _, s := range n.subs {
@@ -324,10 +399,28 @@ func TestVF_Net(t *testing.T) {
 	ncases := vfN(48, 600)
 	for c := 0; c < ncases; c++ {
 		mode := c % 4
-		lit, rec, nt := vfNetHistory(t, rng, mode)
+		lit, rec, nt := vfNetHistory(t, rng, mode, false)
 		cs.add(lit, rec, nt)
 		cs.kind([]string{"floodsub", "randomsub", "gossipsub", "mixed"}[mode])
 	}
-	cs.flush("random REAL networks of 2..6 nodes (all floodsub, all randomsub, all gossipsub, mixed), random connected topologies (random trees with extra links, stars, chains, complete graphs), roles subscriber (one or two subscriptions) / relay / bystander, up to 12 churn operations (subscribe, cancel, relay, relay-cancel, connect, disconnect) repaired to a connected overlay, 100 virtual seconds of settling (prune backoff expired and swept, heartbeats running), then three publications from random nodes that are members of or adjacent to the overlay; the copies received by every subscription are counted; " +
+	// churn at the degree bound: leaves of a small-parameter gossipsub star reconnect
+	for c := vfN(12, 100); c > 0; c-- {
+		lit, rec, _ := vfNetHistory(t, rng, 5, false)
+		cs.add(lit, rec, true)
+		cs.kind("gossipsub-star-leaf-reconnects")
+	}
+	// mixed-protocol edge: a gossipsub publisher outside the overlay whose topic neighbours all speak floodsub to it
+	for c := vfN(12, 100); c > 0; c-- {
+		lit, rec, _ := vfNetHistory(t, rng, 4, false)
+		cs.add(lit, rec, true)
+		cs.kind("mixed-nonmember-gossipsub-publisher")
+	}
+	// the boundary of the gossipsub degree bound: stars whose hub has exactly D+Dlazy subscribing neighbours (small parameters)
+	for c := vfN(24, 300); c > 0; c-- {
+		lit, rec, _ := vfNetHistory(t, rng, 2, true)
+		cs.add(lit, rec, true)
+		cs.kind("gossipsub-boundary-star")
+	}
+	cs.flush("random REAL networks of 2..6 nodes (all floodsub, all randomsub, all gossipsub, mixed; gossipsub with default parameters or with D=2 / Dhi=3 / Dlazy=2 on at most five nodes, where part of the subscribers is reached by gossip only), random connected topologies (random trees with extra links, stars, chains, complete graphs), roles subscriber (one or two subscriptions) / relay / bystander, up to 12 churn operations (subscribe, cancel, relay, relay-cancel, connect, disconnect) repaired to a connected overlay, 100 virtual seconds of settling (prune backoff expired and swept, heartbeats running), then three publications from random nodes that are members of or adjacent to the overlay; the copies received by every subscription are counted; " +
 		"non-trivial = more than two overlay members and at least one churn operation; distinct = hash of the observations")
 }
